@@ -376,6 +376,30 @@ def gen_grid():
                             c0f=(W * 89 + H * 401) % 1001,
                         )
 
+    # kitty transmissions whose base64 payload is an exact number of 4096-character chunks
+    # (uncompressed 24- and 32-bit data of 1024 x k / 768 x k pixels), one short of it and
+    # one past it: the last chunk is the one that carries m=0
+    for meth in ("W", "L"):
+        for alpha, mode in (("#", "RGB"), ("", "RGBA")):
+            for cell, (W, H) in (([8, 16], (4, 2)), ([8, 16], (8, 4)), ([8, 12], (4, 2)), ([8, 12], (8, 3)), ([8, 16], (4, 1)), ([16, 16], (4, 4)), ([8, 16], (5, 2)), ([8, 16], (3, 2))):
+                yield dict(
+                    style="kitty",
+                    term=[W + 3, H + 2],
+                    cell=cell,
+                    src=[W * cell[0], H * cell[1]],
+                    mode=mode,
+                    pattern="noise",
+                    source="pil",
+                    size_kw=dict(width=W, height=H),
+                    size_enum=None,
+                    alpha=alpha,
+                    stylespec=meth + "c0",
+                    how="format",
+                    img_seed=W * 131 + H,
+                    r0f=500,
+                    c0f=500,
+                )
+
 
 def run_shard(shard, env):
     import term_image
